@@ -12,7 +12,7 @@ pub struct C15P;
 pub static C15: C15P = C15P;
 
 fn n_for(t: Tier) -> usize {
-    t.pick(10, 16)
+    t.pick(10, 32)
 }
 
 impl Prop for C15P {
